@@ -32,7 +32,8 @@ RULE = ('random edit histories of 1-120 operations (thorough: up to 300) from th
         'inside the histories (profile subst; instances whose pins fit a random implementation circuit or a cell of a built-in library, '
         'some pins unconnected; synthetic libraries), on the C10 hosts x implementations loaded as pickle state, and resolve_tlib_cells with '
         'the built-in library objects (GSC180, NANGATE, NANGATE_ZN, SAED32, SAED90): dump after the call compared with the object model '
-        '(Model/CircObjSub.lean), raising cases must raise in both. Oracle-only streams: random '
+        '(Model/CircObjSub.lean), raising cases must raise in both; port-cell style implementations whose forks drive several output '
+        'ports, with open instance outputs (the squeeze of D30). Oracle-only streams: random '
         'netlists of library cells (NANGATE, SAED32, SAED90, GSC180), some pins unconnected, WFc after the call (oracle only); '
         'remove_dangling_nodes(root) for a non-port root without output lines after a random history (oracle only). '
         'distinct = history token list; non-trivial = at least 8 operations incl. a removal')
@@ -245,9 +246,30 @@ def node_free(c, n):
     return all(x is None for x in n.ins) and all(x is None for x in n.outs) and not any(m is n for m in c.io_nodes)
 
 
+def designated(impl):
+    """the designated cell of substitute (circuit.py:397-405), None if there is none or the walk fails"""
+    ios = set(impl.io_nodes)
+    des = None
+    try:
+        outl = [n.ins[0] for n in impl.io_nodes if len(n.ins) > 0]
+        if outl:
+            n = outl[0].driver
+            for _ in range(len(impl.nodes) + 1):
+                if not (n.kind == FORK and n not in ios): break
+                n = n.ins[0].driver
+            des = n
+    except Exception:
+        return None
+    seq = [n for n in impl.nodes if 'dff' in n.kind.lower() or 'latch' in n.kind.lower()]
+    return seq[0] if seq else des
+
+
 def impl_ok(impl):
-    """well-formed use of substitute, implementation side: a well-formed circuit whose port list has no duplicates"""
-    return len(set(map(id, impl.io_nodes))) == len(impl.io_nodes) and not wfc_failures(impl)
+    """well-formed use of substitute, implementation side (the model's `implStatic`): a well-formed circuit whose port list has
+    no duplicates and whose designated cell is not a port (a feed-through implementation makes a port the designated cell)"""
+    if len(set(map(id, impl.io_nodes))) != len(impl.io_nodes) or wfc_failures(impl): return False
+    d = designated(impl)
+    return d is None or not any(d is n for n in impl.io_nodes)
 
 
 def sub_ok(c, u, impl):
@@ -858,6 +880,55 @@ def model_subst_stream(ck, n):
         run_history(ck, toks, dumps, fails, tags, 'model-subst')
 
 
+def gap_impl(rng):
+    """implementation in port-cell style whose forks drive several output ports and gates in random pin order: with some
+    instance outputs open, the copied forks get `None` gaps that substitute() has to squeeze out again (D30)"""
+    from kyupy.circuit import Circuit, Node, Line
+    m = Circuit('m')
+    forks = []
+    for k in range(rng.randint(1, 3)):
+        a = Node(m, f'A{k}', 'input'); m.io_nodes.append(a); f = Node(m, f'A{k}'); Line(m, a, f); forks.append(f)
+    for g in range(rng.randint(1, 4)):
+        x = Node(m, f'G{g}', rng.choice(['INV1', 'AND2', 'OR2', 'DFF']))
+        for _ in range(rng.randint(1, 2)): Line(m, rng.choice(forks), x)
+        f = Node(m, f'G{g}'); Line(m, x, f); forks.append(f)
+    conns = []
+    for k in range(rng.randint(1, 4)):
+        o = Node(m, f'O{k}', 'output'); m.io_nodes.append(o); conns.append((rng.choice(forks[1:] or forks), o))
+    for g in range(rng.randint(0, 3)):
+        x = Node(m, f'H{g}', 'BUF1'); conns.append((rng.choice(forks), x))
+        fo = Node(m, f'H{g}'); Line(m, x, fo)
+        o = Node(m, f'OH{g}', 'output'); m.io_nodes.append(o); Line(m, fo, o)
+    rng.shuffle(conns)
+    for f, t in conns: Line(m, f, t)
+    if rng.random() < 0.5:
+        try: m.eliminate_1to1_forks()
+        except Exception: pass
+    return m
+
+
+def model_gap_stream(ck, n):
+    """substitute with open output pins on implementations whose forks then have gaps to be squeezed out (D30), then copy / pickle"""
+    rng = ck.rng
+    for _ in range(n):
+        with common.quiet(): m = gap_impl(rng)
+        if not impl_ok(m):
+            ck.case(key=None, nontrivial=False, tag='stream:model-gap-skipped'); continue
+        nin = sum(1 for q in m.io_nodes if len(q.ins) == 0)
+        nout = len(m.io_nodes) - nin
+        toks = ['n:i0:input', 'n:s0:__fork__', 'l:0:-:1:-', 'io:0', 'n:u:CELLX1']
+        for k in range(nin):
+            if rng.random() < 0.85: toks.append(f'l:1:-:2:{k}')
+        nn, n_open = 3, 0
+        for k in range(nout):
+            if rng.random() < 0.55:
+                toks += [f'n:o{k}:output', f'l:2:{k}:{nn}:-', f'io:{nn}']; nn += 1
+            else: n_open += 1
+        toks += ['sub:2:' + spec_of(m), rng.choice(['copy', 'pickle'])]
+        toks, dumps, fails = trim_to_wellformed(toks)
+        run_history(ck, toks, dumps, fails, {'stream:model-gap', f'gap:open-outputs-{min(n_open, 3)}'}, 'model-gap')
+
+
 def trim_to_wellformed(toks):
     """replay; stop before an `elim` that is not a well-formed use and after the first exception / WFc failure"""
     c = new_circuit()
@@ -1012,6 +1083,7 @@ def run(ck):
     stream(n_hist)
     model_subst_stream(ck, 120 * ck.scale)
     model_resolve_stream(ck, 50 * ck.scale)
+    model_gap_stream(ck, 60 * ck.scale)
     subst_stream(ck, 60 * ck.scale)
     subst_synth_stream(ck, 150 * ck.scale)
     dangling_stream(ck, 40 * ck.scale)
